@@ -274,16 +274,23 @@ def proof_step(pid, tier="quick"):
         res["errors"].append("Props/%s.v: %d theorems but %d Print Assumptions" % (pid, len(names), n_print))
     tdir = os.path.join(CACHE, "props_%s_%d" % (pid, os.getpid()))
     os.makedirs(tdir, exist_ok=True)
-    q = os.path.join(tdir, "Assum_%s.v" % pid)
-    with open(q, "w") as f:
-        f.write("From Coq Require Import String.\nFrom OV Require Import Props.%s.\n" % pid)
-        for nm in names:
-            f.write('Eval compute in "MARK:%s"%%string.\nPrint Assumptions %s.\n' % (nm, nm))
-    rc, out = sh("timeout 900 coqc -noglob -Q . OV -w -notation-overridden %s 2>&1" % q, cwd=COQDIR, timeout=930)
+    nchunk = max(1, min(8, len(names) // 4))
+    chunks = [names[k::nchunk] for k in range(nchunk)]
+    def ask(k):
+        q = os.path.join(tdir, "Assum_%s_%d.v" % (pid, k))
+        with open(q, "w") as f:
+            f.write("From Coq Require Import String.\nFrom OV Require Import Props.%s.\n" % pid)
+            for nm in chunks[k]:
+                f.write('Eval compute in "MARK:%s"%%string.\nPrint Assumptions %s.\n' % (nm, nm))
+        return sh("timeout 900 coqc -noglob -Q . OV -w -notation-overridden %s 2>&1" % q, cwd=COQDIR, timeout=930)
+    with ThreadPoolExecutor(max_workers=nchunk) as ex:
+        results = list(ex.map(ask, range(nchunk)))
     shutil.rmtree(tdir, ignore_errors=True)
-    if rc != 0:
-        res["errors"].append("assumption query for Props/%s.v failed:\n%s" % (pid, out[-3000:]))
+    bad = [o for r, o in results if r != 0]
+    if bad:
+        res["errors"].append("assumption query for Props/%s.v failed:\n%s" % (pid, bad[0][-3000:]))
         return res
+    out = "\n".join(o for _, o in results)
     amap = {}
     parts = re.split(r'=\s*"MARK:([A-Za-z0-9_\']+)"%string\s*\n\s*:\s*string', out)
     for k in range(1, len(parts) - 1, 2):
